@@ -1,4 +1,5 @@
-import Xp.Proofs.C06World
+import Xp.Proofs.C06Race
+import Xp.Proofs.C06Mf
 import Xp.Gen.C06
 /-
 C06 — a claim binds exactly one XR and never hijacks another claim's XR.
@@ -311,6 +312,33 @@ theorem next_call_safe {s0 : St} (h0 : Init s0) {s : St} {r : Req} {k : Resp →
     (hr : Reach s0 ⟨s, some (.call r k)⟩) : G s r :=
   ((reach_inv h0.inv hr).2 _ rfl s (Fut.refl s) (reach_inv h0.inv hr).1).1
 
+/-- the XR a write or delete request is addressed to -/
+def xrTarget : Req → Option Name
+  | .upgradeXR n _ _ | .deleteXR n _ | .createXR n _ _ | .patchXR n _ _ | .applyXR n _ => some n
+  | _ => none
+
+/-- Clause "a retry reuses that name", on the requests (monitor C06:write-off-ref as a theorem): whenever ANY write
+or delete of the in-flight reconcile — the managed-fields patch, Delete, Create, merge patch, forced apply — is
+about to be applied, the XR it is addressed to is the one whose name is durably recorded in the claim: some stored
+version of the claim carries that name, and it is the name of the stored `spec.resourceRef` (whatever group,
+version and kind that reference carries) if the claim still has one. In every world, over all schedules, fault
+plans, cache lags (a stale claim read included) and histories. -/
+theorem writes_only_to_recorded_name {s0 : St} (h0 : Init s0) {s : St} {r : Req} {k : Resp → P}
+    (hr : Reach s0 ⟨s, some (.call r k)⟩) (n : Name) (hw : xrTarget r = some n) :
+    acked s n ∧ ∀ c (ref : XRef), s.claim = some c → c.ref = some ref → ref.name = n := by
+  have hg := next_call_safe h0 hr
+  have hi := (reach_inv h0.inv hr).1
+  have hack : acked s n := by
+    cases r with
+    | upgradeXR m rv d => cases hw; exact hg.2
+    | deleteXR m fg => cases hw; exact hg.2
+    | createXR m b c => cases hw; exact hg.1
+    | patchXR m rv c => cases hw; exact hg.1.1.1
+    | applyXR m c => cases hw; exact hg.1.1
+    | _ => cases hw
+  refine ⟨hack, fun c ref hc href => ?_⟩
+  exact acked_unique hi ⟨c, cur_mem hi hc, refName_of_ref href⟩ hack
+
 /-! ### regenerated facts: the modelled Go functions still have the modelled call skeleton -/
 
 /-- `Reconcile`: Get claim, Get XR, unbound check, Upgrade, [Delete, RemoveFinalizer] | [AddFinalizer, Sync], … -/
@@ -325,6 +353,183 @@ theorem skeleton_csa_sync : Xp.Gen.c06SkelCsaSync = skelCsaSync := by decide
 theorem skeleton_upgrade : Xp.Gen.c06SkelUpgrade = skelUpgrade := by decide
 
 theorem skeleton_generate_name : Xp.Gen.c06SkelGenerateName = skelGenerateName := by decide
+
+/-- crossplane-runtime `APIPatchingApplicator.Apply` (the module source the harness is linked against): [Create
+for a nameless object,] Get, Create on NotFound, [ApplyOptions,] Patch — what `csaApply` mirrors -/
+theorem skeleton_apply : Xp.Gen.c06SkelApply = skelApply := by decide
+
+/-- crossplane-runtime `APIFinalizer.AddFinalizer` / `RemoveFinalizer`: one Update each -/
+theorem skeleton_add_finalizer : Xp.Gen.c06SkelAddFinalizer = skelAddFinalizer := by decide
+
+theorem skeleton_remove_finalizer : Xp.Gen.c06SkelRemoveFinalizer = skelRemoveFinalizer := by decide
+
+/-- offered/reconciler.go: under features.EnableBetaClaimSSA exactly the server-side syncer AND the patching
+managed-fields upgrader are wired (`Cfg.ssa` stands for both: `syncWith`, `upgradeOf`) … -/
+theorem wiring_ssa : Xp.Gen.c06WiringSSA = wiringSSA := by decide
+
+/-- … and claim.NewReconciler's defaults are the client-side syncer and the Nop upgrader -/
+theorem wiring_default : Xp.Gen.c06WiringDefault = wiringDefault := by decide
+
+/-- the field manager `Upgrade` looks for is claim.FieldOwnerXR -/
+theorem field_owner_tied : Xp.Gen.c06FieldOwnerXR = ssaManager := by decide
+
+/-! #### the declared skeletons of the syncers are the request sequences of the model's programs
+
+`pathReqs (okReply …)` lists the requests a model program issues when every call succeeds; mapped to client
+verbs they ARE the declared (and hence, by `skeleton_*`, the regenerated) skeletons, for every configuration,
+claim, XR and name. -/
+
+/-- server-side `Sync` = GenerateName, then the three requests of `ssaBind` -/
+theorem skeleton_ssa_sync_from_model (cfg : Cfg) (cm : Claim) (x : XR) (n : Name) :
+    skelSsaSync = "names.GenerateName" :: (pathReqs (okReply cm x true) 3 (ssaBind cfg cm n)).map reqVerb := rfl
+
+/-- client-side `Sync` = GenerateName, the Update of `csaBindNew`, Apply, the two requests of `csaPost` -/
+theorem skeleton_csa_sync_from_model (cfg : Cfg) (xr : Option XR) (cm : Claim) (x : XR) (n : Name) :
+    skelCsaSync = "names.GenerateName" :: (pathReqs (okReply cm x false) 1 (csaBindNew cfg xr cm n)).map reqVerb ++
+      "client.Apply" :: (pathReqs (okReply cm x false) 2 (csaPost cm)).map reqVerb := rfl
+
+/-- `Apply` = [the nameless-object Create,] the two paths of `csaApply`: Get + Create (NotFound), Get + Patch -/
+theorem skeleton_apply_from_model (cfg : Cfg) (cm : Claim) (x : XR) (n : Name) :
+    skelApply = "client.Create" :: ((pathReqs (okReply cm x false) 2 (csaApply cfg none cm n)).map reqVerb ++
+      ((pathReqs (okReply cm x true) 2 (csaApply cfg none cm n)).map reqVerb).drop 1) := rfl
+
+/-- `Upgrade` = one Patch per constructor of `UpDec`, the removal first (source order of the switch) -/
+theorem skeleton_upgrade_from_model (n : Name) (rv i : Nat) :
+    skelUpgrade = [UpDec.removeAt i, UpDec.clear].map fun d => reqVerb (.upgradeXR n rv d) := rfl
+
+/-! ### the client-side syncer's Apply: its options as model steps -/
+
+/-- the object the client-side syncer asks Apply for, built from the XR as read: claimRef and claim labels
+set to this claim's (SetClaimReference replaces the whole reference: a uid key goes), everything else —
+including the resourceVersion — as read -/
+def csaDesired (me : CRef) (x : XR) : XR := { x with cref := some me, crefUid := false, lbl := some (me.name, me.ns) }
+
+/-- `AllowUpdateIf(func(old, obj) bool { return !cmp.Equal(old, obj) })` refuses the update (`csaNoop`: no patch
+is sent) iff the desired object changes nothing of the XR as read AND that is the current state (same
+resourceVersion); an XR that was not read is always patched. -/
+theorem csa_allow_update_if (me : CRef) (xr : Option XR) (cur : XR) :
+    csaNoop me xr cur = true ↔ ∃ x, xr = some x ∧ csaDesired me x = x ∧ x.rv = cur.rv := by
+  cases xr with
+  | none => simp [csaNoop]
+  | some x =>
+    obtain ⟨rv, cref, uid, lbl, fin, del, st, gen, mf⟩ := x
+    simp only [csaNoop, csaDesired, Bool.and_eq_true, beq_iff_eq, Bool.not_eq_true', Option.some.injEq, exists_eq_left', XR.mk.injEq,
+      and_true, true_and]
+    constructor
+    · rintro ⟨⟨⟨h1, h2⟩, h3⟩, h4⟩; exact ⟨⟨h2.symm, h3.symm, h4.symm⟩, h1⟩
+    · rintro ⟨⟨h2, h3, h4⟩, h1⟩; exact ⟨⟨⟨h1, h2.symm⟩, h3.symm⟩, h4.symm⟩
+
+/-- `APIPatchingApplicator.Apply` as the client-side syncer calls it, step by step: Get; on NotFound a Create
+that still carries the resourceVersion of the XR as read if there was one (the server rejects it); otherwise,
+unless AllowUpdateIf refuses, ONE merge patch that carries the resourceVersion of the XR as read — the rv
+precondition — and no resourceVersion at all if Reconcile's Get did not find the XR. -/
+theorem csa_apply_steps (cfg : Cfg) (xr : Option XR) (cm1 : Claim) (n : Name) :
+    ∃ k, csaApply cfg xr cm1 n = .call (.getXR n (cfg.xpick 1)) k ∧
+      firstReq (k (.err .notFound)) = some (.createXR n xr.isSome cm1.id) ∧
+      ∀ cur, firstReq (k (.xr cur)) =
+        if csaNoop cm1.id xr cur then firstReq (csaPost cm1) else some (.patchXR n (xr.map XR.rv) cm1.id) := by
+  refine ⟨_, rfl, rfl, fun cur => ?_⟩
+  dsimp only
+  split <;> rfl
+
+/-! ### managed fields: the upgrader's decision and its two JSON patches (no oracle)
+
+`PatchingManagedFieldsUpgrader.Upgrade` is inside the model: `upgradeDecision` is its loop and switch over the
+manager names of the XR as read, `applyUpDec` the server's answer to the patch on the stored managers. -/
+
+/-- the decision, for ALL manager lists: nothing to do iff the claim manager is there and no before-first-apply
+entry is; clear iff the claim manager is not there; otherwise remove the LAST before-first-apply entry -/
+theorem upgrade_decision_spec (ssa : String) (mf : List String) :
+    (upgradeDecision ssa mf = none ↔ ssa ∈ mf ∧ bfaManager ∉ mf) ∧
+    (upgradeDecision ssa mf = some .clear ↔ ssa ∉ mf) ∧
+    (∀ i, upgradeDecision ssa mf = some (.removeAt i) ↔
+      ssa ∈ mf ∧ mf[i]? = some bfaManager ∧ ∀ k, i < k → mf[k]? ≠ some bfaManager) :=
+  ⟨decision_none_iff ssa mf, decision_clear_iff ssa mf,
+    fun i => ⟨decision_remove ssa mf i, fun h => decision_remove_of ssa mf i h.1 h.2.1 h.2.2⟩⟩
+
+/-- the patch computed from a state is applicable to THAT state unless it has no managers at all: an XR whose
+managers were cleared and that was not applied yet (the reconcile was interrupted between `Upgrade` and the
+apply) is answered Invalid by every later `Upgrade` until somebody records a manager -/
+theorem upgrade_patch_applicable_iff (ssa : String) (mf : List String) (d : UpDec) (h : upgradeDecision ssa mf = some d) :
+    (applyUpDec d mf).isSome = true ↔ mf ≠ [] := by
+  cases d with
+  | clear => cases mf <;> simp [applyUpDec]
+  | removeAt i =>
+    obtain ⟨_, hget, _⟩ := decision_remove ssa mf i h
+    have hlt : i < mf.length := (List.getElem?_eq_some_iff.mp hget).1
+    have hne : mf ≠ [] := by intro e; rw [e] at hlt; exact absurd hlt (by simp)
+    simp [applyUpDec, hlt, hne]
+
+theorem upgrade_rejected_without_managers (ssa : String) :
+    upgradeDecision ssa [] = some .clear ∧ applyUpDec .clear [] = none := ⟨rfl, rfl⟩
+
+/-- Whatever the store, the resourceVersion and the patch: the managed-fields patch changes neither the claim
+(spec.resourceRef) nor any XR's claimRef, uid key, claim labels, finalizers, deletionTimestamp or status; it
+creates and removes no XR. -/
+theorem upgrade_keeps_refs (s : St) (n : Name) (rv : Nat) (d : UpDec) :
+    (exec s (.upgradeXR n rv d)).1.claim = s.claim ∧ (exec s (.upgradeXR n rv d)).1.hist = s.hist ∧
+    ∀ m, ((exec s (.upgradeXR n rv d)).1.xrs m).map (fun x => (x.cref, x.crefUid, x.lbl, x.fin, x.deleting, x.status, x.gen)) =
+      (s.xrs m).map (fun x => (x.cref, x.crefUid, x.lbl, x.fin, x.deleting, x.status, x.gen)) := by
+  simp only [exec]
+  split
+  · exact ⟨rfl, rfl, fun _ => rfl⟩
+  · rename_i x hx
+    split
+    · exact ⟨rfl, rfl, fun _ => rfl⟩
+    · split
+      · exact ⟨rfl, rfl, fun _ => rfl⟩
+      · refine ⟨rfl, rfl, fun m => ?_⟩
+        simp only [emit, putXR]
+        by_cases hm : m = n
+        · subst hm; simp [hx]
+        · simp [hm]
+
+/-- the client-side wiring never issues the patch … -/
+theorem upgrade_only_in_ssa_wiring (cfg : Cfg) (cm : Claim) (xr : Option (Name × XR)) (h : cfg.ssa = false) :
+    afterCheck cfg cm xr = restOf cfg cm xr := by
+  unfold afterCheck upgradeOf
+  cases xr with
+  | none => rfl
+  | some p => simp [h]
+
+/-- … and the server-side one issues exactly the patch decided on the managers of the XR as read, carrying the
+resourceVersion read -/
+theorem upgrade_request_is_decision (cfg : Cfg) (cm : Claim) (n : Name) (x : XR) (d : UpDec) (hs : cfg.ssa = true)
+    (h : upgradeDecision ssaManager x.mf = some d) :
+    firstReq (afterCheck cfg cm (some (n, x))) = some (.upgradeXR n x.rv d) := by
+  unfold afterCheck upgradeOf
+  simp [hs, h, firstReq]
+
+/-- the forced apply records the claim manager, so after it `Upgrade` never clears again … -/
+theorem upgrade_never_clears_after_apply (mf : List String) : upgradeDecision ssaManager (applyMf mf) ≠ some .clear := by
+  intro h
+  exact ((decision_clear_iff _ _).mp h) (ssa_mem_applyMf mf)
+
+/-- … and each removal is accepted on the state it was decided on, keeps the claim manager and shortens the list:
+after at most (number of before-first-apply entries) further patches the decision is "nothing to do" -/
+theorem upgrade_remove_progress (mf : List String) (i : Nat) (h : upgradeDecision ssaManager mf = some (.removeAt i)) :
+    ∃ mf', applyUpDec (.removeAt i) mf = some mf' ∧ ssaManager ∈ mf' ∧ mf'.length + 1 = mf.length := by
+  obtain ⟨hs, hget, _⟩ := decision_remove _ mf i h
+  have hlt : i < mf.length := (List.getElem?_eq_some_iff.mp hget).1
+  refine ⟨mf.eraseIdx i, by simp [applyUpDec, hlt], ?_, ?_⟩
+  · obtain ⟨j, hj⟩ := List.getElem?_of_mem hs
+    refine List.mem_eraseIdx_iff_getElem?.mpr ⟨j, ?_, hj⟩
+    intro e
+    subst e
+    rw [hget] at hj
+    exact absurd (Option.some.inj hj) (by decide)
+  · rw [List.length_eraseIdx_of_lt hlt]; omega
+
+/-- the migration path of an XR that the client-side syncer created: clear, apply (the server records
+before-first-apply), remove that entry, done; and the loop looks at ALL entries (the last before-first-apply
+index, managers in any order) -/
+example : upgradeDecision ssaManager ["crossplane"] = some .clear ∧ applyUpDec .clear ["crossplane"] = some [] ∧
+    applyMf [] = [ssaManager, bfaManager] ∧ upgradeDecision ssaManager [ssaManager, bfaManager] = some (.removeAt 1) ∧
+    applyUpDec (.removeAt 1) [ssaManager, bfaManager] = some [ssaManager] ∧ upgradeDecision ssaManager [ssaManager] = none := by decide
+
+example : upgradeDecision ssaManager ["kubectl", bfaManager, ssaManager, "apiextensions.crossplane.io/composite"] = some (.removeAt 1) ∧
+    upgradeDecision ssaManager [bfaManager, ssaManager, bfaManager] = some (.removeAt 2) ∧
+    upgradeDecision ssaManager [ssaManager, "crossplane", "apiextensions.crossplane.io/composite"] = none := by decide
 
 /-! ### the correspondence driver's schedules are executions of this system -/
 
@@ -348,10 +553,10 @@ namespace, an unbound XR `x-b` -/
 def exClaim : Claim := ⟨1, exMe, none, false, false, false⟩
 def exStore : St :=
   { me := exMe, claim := some exClaim, hist := [exClaim],
-    xrs := fun n => if n = "x-a" then some ⟨2, some exTwin, false, some ("c", "other-ns"), true, false, true, 0⟩
-                    else if n = "x-b" then some ⟨3, none, false, none, false, false, false, 0⟩ else none,
-    xhist := fun n => [if n = "x-a" then some ⟨2, some exTwin, false, some ("c", "other-ns"), true, false, true, 0⟩
-                       else if n = "x-b" then some ⟨3, none, false, none, false, false, false, 0⟩ else none],
+    xrs := fun n => if n = "x-a" then some ⟨2, some exTwin, false, some ("c", "other-ns"), true, false, true, 0, ["crossplane"]⟩
+                    else if n = "x-b" then some ⟨3, none, false, none, false, false, false, 0, [ssaManager]⟩ else none,
+    xhist := fun n => [if n = "x-a" then some ⟨2, some exTwin, false, some ("c", "other-ns"), true, false, true, 0, ["crossplane"]⟩
+                       else if n = "x-b" then some ⟨3, none, false, none, false, false, false, 0, [ssaManager]⟩ else none],
     nextRv := 10, trace := [] }
 
 example : Init exStore := by
@@ -375,7 +580,7 @@ example : Init exStore := by
 foreign XR: get claim, add finalizer, Get x-a (taken), Get c-1 (free), update claim, apply -/
 def exRun : Sys :=
   stepOk (stepOk (stepOk (stepOk (stepOk (stepOk
-    ⟨exStore, some (reconcile { ssa := true, xrt := exXRT, pick := none, xpick := fun _ => none, cands := ["x-a", "c-1"], up := none })⟩)))))
+    ⟨exStore, some (reconcile { ssa := true, xrt := exXRT, pick := none, xpick := fun _ => none, cands := ["x-a", "c-1"] })⟩)))))
 
 example : Reach exStore exRun :=
   stepOk_reach (stepOk_reach (stepOk_reach (stepOk_reach (stepOk_reach (stepOk_reach
@@ -394,8 +599,8 @@ the reference's apiVersion. -/
 def exClaim3 : Claim := ⟨1, exMe, some ⟨"x-b", "example.org", "v1alpha1", "XThing"⟩, true, false, false⟩
 def exStore3 : St :=
   { me := exMe, claim := some exClaim3, hist := [exClaim3],
-    xrs := fun n => if n = "x-b" then some ⟨3, some exMe, false, some ("c", "ns"), false, false, false, 0⟩ else none,
-    xhist := fun n => [if n = "x-b" then some ⟨3, some exMe, false, some ("c", "ns"), false, false, false, 0⟩ else none],
+    xrs := fun n => if n = "x-b" then some ⟨3, some exMe, false, some ("c", "ns"), false, false, false, 0, [ssaManager]⟩ else none,
+    xhist := fun n => [if n = "x-b" then some ⟨3, some exMe, false, some ("c", "ns"), false, false, false, 0, [ssaManager]⟩ else none],
     nextRv := 10, trace := [] }
 
 example : Init exStore3 := by
@@ -413,7 +618,7 @@ example : Init exStore3 := by
 
 def exRun3 (ssa : Bool) : Sys :=
   stepOk (stepOk (stepOk (stepOk (stepOk (stepOk (stepOk
-    ⟨exStore3, some (reconcile { ssa := ssa, xrt := exXRT, pick := none, xpick := fun _ => none, cands := ["c-1"], up := none })⟩))))))
+    ⟨exStore3, some (reconcile { ssa := ssa, xrt := exXRT, pick := none, xpick := fun _ => none, cands := ["c-1"] })⟩))))))
 
 /-- server-side: the claim update (same name, apiVersion rewritten), then the apply of `x-b`; no create -/
 example : (exRun3 true).st.trace = [.xrWrite "x-b" (some exMe), .ack "x-b"] ∧
@@ -424,6 +629,24 @@ example : (exRun3 true).st.trace = [.xrWrite "x-b" (some exMe), .ack "x-b"] ∧
 example : (exRun3 false).st.trace = [.ack "x-b", .ack "x-b"] ∧
     isBound (exRun3 false).st "x-b" = true ∧ isBound (exRun3 false).st "c-1" = false ∧
     ((exRun3 false).st.claim.bind (·.ref)) = some ⟨"x-b", "example.org", "v1", "XThing"⟩ := by decide
+
+/-! #### managed fields: a legacy XR -/
+
+/-- a legacy XR bound to this claim, server-side wiring: the first request after the bound check is the 'clear'
+patch carrying the resourceVersion read (`upgrade_request_is_decision`); applied to the store it empties the manager
+list and leaves claimRef and labels alone (`upgrade_keeps_refs`); the client-side wiring goes straight on -/
+def exLegacy : XR := ⟨3, some exMe, false, some ("c", "ns"), false, false, false, 0, ["crossplane"]⟩
+def exStore6 : St := { exStore3 with xrs := fun n => if n = "x-b" then some exLegacy else none,
+                                     xhist := fun n => [if n = "x-b" then some exLegacy else none] }
+
+example : firstReq (afterCheck { ssa := true, xrt := exXRT, pick := none, xpick := fun _ => none, cands := [] } exClaim3 (some ("x-b", exLegacy))) =
+    some (.upgradeXR "x-b" 3 .clear) := rfl
+
+example : ((exec exStore6 (.upgradeXR "x-b" 3 .clear)).1.xrs "x-b").map (fun x => (x.mf, x.cref, x.lbl)) =
+    some ([], some exMe, some ("c", "ns")) := by decide
+
+example : ∃ c, firstReq (afterCheck { ssa := false, xrt := exXRT, pick := none, xpick := fun _ => none, cands := [] } exClaim3 (some ("x-b", exLegacy))) =
+    some (.updClaim c) := ⟨_, rfl⟩
 
 /-! #### the referenced XR is bound to the same-named claim of another namespace
 
@@ -436,7 +659,7 @@ def exStore4 (deleting : Bool) : St := { exStore with claim := some (exClaim4 de
 
 def exRun4 (ssa deleting : Bool) : Sys :=
   stepOk (stepOk (stepOk (stepOk
-    ⟨exStore4 deleting, some (reconcile { ssa := ssa, xrt := exXRT, pick := none, xpick := fun _ => none, cands := ["c-1"], up := some true })⟩)))
+    ⟨exStore4 deleting, some (reconcile { ssa := ssa, xrt := exXRT, pick := none, xpick := fun _ => none, cands := ["c-1"] })⟩)))
 
 def isDone : Option P → Bool
   | some (.ret _) => true
@@ -447,8 +670,8 @@ example : (exRun4 false false).st.trace = [] ∧ (exRun4 false false).st.xrs "x-
 example : (exRun4 true true).st.trace = [] ∧ (exRun4 true true).st.xrs "x-a" = exStore.xrs "x-a" ∧ isDone (exRun4 true true).thread = true := by decide
 example : (exRun4 false true).st.trace = [] ∧ (exRun4 false true).st.xrs "x-a" = exStore.xrs "x-a" ∧ isDone (exRun4 false true).thread = true := by decide
 
-example : unbound (exClaim4 false) ⟨2, some exTwin, false, none, true, false, true, 0⟩ = true := by decide
-example : unbound (exClaim4 false) ⟨2, some exMe, true, none, true, false, true, 0⟩ = false := by decide
+example : unbound (exClaim4 false) ⟨2, some exTwin, false, none, true, false, true, 0, []⟩ = true := by decide
+example : unbound (exClaim4 false) ⟨2, some exMe, true, none, true, false, true, 0, []⟩ = false := by decide
 
 /-! ### several claims of the kind: the other claims' reconciles are environment steps -/
 
@@ -518,7 +741,7 @@ theorem exStoreP_init (c : Claim) (hrv : c.rv = 1) (hid : c.id = exMe) : Init (e
 example : Init (exStoreP (exClaim2 false)) ∧ (exStoreP (exClaim2 false)).peers = true := ⟨exStoreP_init _ rfl rfl, rfl⟩
 
 /-- the twin claim's controller binds (or creates, bound) XR `n` -/
-def peerBind (s : St) (n : Name) : St := (putXR s n ⟨0, some exTwin, false, some ("c", "other-ns"), false, false, false, 0⟩).1
+def peerBind (s : St) (n : Name) : St := (putXR s n ⟨0, some exTwin, false, some ("c", "other-ns"), false, false, false, 0, ["crossplane"]⟩).1
 
 def peerStep (sys : Sys) (n : Name) : Sys := ⟨peerBind sys.st n, sys.thread⟩
 
@@ -527,7 +750,7 @@ theorem peerStep_reach {s0 : St} {sys : Sys} (h : Reach s0 sys) (n : Name) (hp :
   Reach.step _ _ h (Step.env sys.st _ sys.thread (Env.peerWrite sys.st n _ hp (fun hc => by
     rw [hme] at hc; exact absurd (Option.some.inj hc) (by decide))))
 
-def exCfg (ssa : Bool) : Cfg := { ssa := ssa, xrt := exXRT, pick := none, xpick := fun _ => none, cands := [], up := none }
+def exCfg (ssa : Bool) : Cfg := { ssa := ssa, xrt := exXRT, pick := none, xpick := fun _ => none, cands := [] }
 
 /-- server-side syncer: get claim, get `x-b` (unbound: the bound check passes), Update(claim); the twin
 claim's controller binds `x-b`; the pending forced apply rebinds it -/
@@ -562,6 +785,118 @@ theorem raced_patch_hijacks_with_peers :
   refine ⟨?_, by decide, by decide⟩
   exact stepOk_reach (stepOk_reach (peerStep_reach (stepOk_reach (stepOk_reach
     (Reach.step _ _ Reach.init (Step.start _ _ _)))) "x-n" (by decide) (by decide)))
+
+/-! #### the window of the finding, exactly
+
+`raced_*` above are witnesses; the three theorems below say that they are the ONLY shape a hijack by the
+pinned code can have, in every world, over all schedules, fault plans, cache lags and histories:
+
+* `hijack_needs_unconditional_request`: a write that took effect on a foreign-bound XR was one of the three
+  requests that carry no resourceVersion (never the managed-fields patch, never the merge patch of an XR
+  that Reconcile's Get found), in a world with other claims' controllers;
+* `unconditional_request_window`: such a request is only ever issued for a name of which the reconcile (or
+  the informer cache it reads through) has seen a state — absent, unbound, or bound to this very claim — that
+  was NOT foreign; so the XR it hits can be foreign only if it BECAME foreign after that state;
+* `becomes_foreign_only_by_peer_write`: the only step of the whole system that makes an XR foreign is a
+  write of ANOTHER claim's controller to that XR (`Env.peerWrite`) — not the XR controller, not the user, not
+  a fault, a crash, a lost reply or a retry of this claim's reconcile.
+
+Hence: claim A's reconcile rebinds or deletes claim B's XR `n` iff B's controller bound (or created) `n`
+between the state of `n` that A's deciding read served and A's unconditional request. -/
+
+/-- In EVERY world: a write of the claim controller that took effect on an XR whose claimRef named another
+claim was unconditional (`xrWrite`: Delete, forced apply, merge patch of an unread XR), and the world has
+other claims' controllers. -/
+theorem hijack_needs_unconditional_request {s0 : St} (h0 : Init s0) {sys : Sys} (hr : Reach s0 sys) (n : Name) (r : CRef)
+    (hne : r ≠ s0.me) :
+    Ev.xrWriteG n (some r) ∉ sys.st.trace ∧ (Ev.xrWrite n (some r) ∈ sys.st.trace → s0.peers = true) := by
+  refine ⟨fun h => hne (no_hijack_guarded h0 hr n r h), fun h => ?_⟩
+  cases hp : s0.peers with
+  | true => rfl
+  | false => exact absurd (no_hijack h0 hp hr n r (Or.inl h)) hne
+
+/-- Whenever a request without resourceVersion is about to be applied to XR `n`: some state the name `n` had
+since the start was absent, unbound or bound to THIS claim (the state the deciding read served); and if the XR
+stored at that instant names another claim, the world has other claims' controllers. -/
+theorem unconditional_request_window {s0 : St} (h0 : Init s0) {s : St} {r : Req} {k : Resp → P}
+    (hr : Reach s0 ⟨s, some (.call r k)⟩) (n : Name) (hu : unconditionalOn r = some n) :
+    SeenNF s n ∧ (foreignNow s n → s0.peers = true) := by
+  have hg := next_call_safe h0 hr
+  have hp : s.peers = s0.peers := (reach_me_peers hr).2
+  have key : NF s n := by
+    cases r with
+    | deleteXR m fg => cases hu; exact hg.1
+    | applyXR m c => cases hu; exact hg.1.2
+    | patchXR m rv c =>
+      cases rv with
+      | none => cases hu; exact hg.1.1.2
+      | some v => cases hu
+    | _ => cases hu
+  refine ⟨key.2, fun hf => ?_⟩
+  cases hq : s0.peers with
+  | true => rfl
+  | false => exact absurd ⟨hp.trans hq, hf⟩ key.1
+
+/-- The only step of the system — environment, call (applied, failed with any error class, reply lost),
+start/crash/restart, return — after which an XR names another claim that did not do so before is a write of
+ANOTHER claim's controller to that very XR, in a world with peers; the reconcile in flight is untouched. -/
+theorem becomes_foreign_only_by_peer_write {s0 : St} (h0 : Init s0) {a b : Sys} (ha : Reach s0 a) (hstep : Step a b)
+    (n : Name) (hnf : ¬ foreignNow a.st n) (hf : foreignNow b.st n) :
+    s0.peers = true ∧ b.thread = a.thread ∧ ∃ x', Env a.st b.st ∧ b.st = (putXR a.st n x').1 := by
+  have hp : a.st.peers = s0.peers := (reach_me_peers ha).2
+  cases hstep with
+  | env s s' t he =>
+    obtain ⟨hpe, x', hx'⟩ := env_foreign_only_peer he n hnf hf
+    exact ⟨hp ▸ hpe, rfl, x', he, hx'⟩
+  | start s t cfg => exact absurd hf hnf
+  | done s r => exact absurd hf hnf
+  | callErr s r k e he => exact absurd hf hnf
+  | callOk s r k => exact absurd hf (exec_keeps_not_foreign (next_call_safe h0 ha) n hnf)
+  | callLost s r k e he => exact absurd hf (exec_keeps_not_foreign (next_call_safe h0 ha) n hnf)
+
+/-- … and nothing on the server side stops it: an unconditional request that reaches the store while XR `n`
+carries ANY claimRef `r` takes effect on it (the ghost trace records `xrWrite n (some r)`): the forced apply
+and the merge patch without resourceVersion rebind the XR to the requester, the Delete removes it or marks it
+for deletion. Together with the three theorems above: the hijack happens IF AND ONLY IF another claim's
+controller bound the XR inside the window. -/
+theorem unconditional_request_always_applies (s : St) (n : Name) (x : XR) (r c : CRef) (fg : Bool)
+    (hx : s.xrs n = some x) (hr : x.cref = some r) :
+    ((exec s (.applyXR n c)).1.trace = Ev.xrWrite n (some r) :: s.trace ∧
+      ((exec s (.applyXR n c)).1.xrs n).bind (·.cref) = some c) ∧
+    ((exec s (.patchXR n none c)).1.trace = Ev.xrWrite n (some r) :: s.trace ∧
+      ((exec s (.patchXR n none c)).1.xrs n).bind (·.cref) = some c) ∧
+    (exec s (.deleteXR n fg)).1.trace = Ev.xrWrite n (some r) :: s.trace := by
+  refine ⟨?_, ?_, ?_⟩
+  · simp [exec, hx, hr, emit, putXR, applyBindXR]
+  · simp [exec, hx, hr, emit, putXR, bindXR]
+  · simp only [exec, hx, emit, hr]
+    have : ∀ x1 : XR, (delState s n x x1).trace = s.trace := by
+      intro x1
+      unfold delState
+      split
+      · split
+        · split <;> rfl
+        · rfl
+      · rfl
+    rw [this]
+
+/-- the hypotheses of `unconditional_request_window` and `becomes_foreign_only_by_peer_write` are met by the
+witness of `raced_apply_hijacks_with_peers`: the forced apply is pending on `x-b`, which the twin claim's
+controller has just bound — `x-b` was unbound (not foreign) in the state the reconcile read -/
+def exRacedApplyPre : Sys := stepOk (stepOk (stepOk ⟨exStoreP (exClaim2 false), some (reconcile (exCfg true))⟩))
+
+example : ((peerStep exRacedApplyPre "x-b").thread.bind firstReq).bind unconditionalOn = some "x-b" := by decide
+
+example : ((exRacedApplyPre.st.xrs "x-b").bind (·.cref)) = none ∧
+    (((peerStep exRacedApplyPre "x-b").st.xrs "x-b").bind (·.cref)) = some exTwin ∧ exTwin ≠ exMe := by decide
+
+/-- `writes_only_to_recorded_name` on the same state: the pending Update/apply go to `x-b`, the name the stored
+claim records -/
+example : (exRacedApplyPre.thread.bind firstReq).bind xrTarget = some "x-b" ∧
+    (exRacedApplyPre.st.claim.bind (·.ref)).map (·.name) = some "x-b" := by decide
+
+/-- `unconditional_request_always_applies`: `exStore` holds `x-a` bound to the twin claim -/
+example : ∃ x, exStore.xrs "x-a" = some x ∧ x.cref = some exTwin := ⟨_, rfl, rfl⟩
 
 /-- the client-side merge patch of an XR that WAS read carries its resourceVersion: the same race ends in
 a conflict and the twin claim's XR is untouched (cf. `no_hijack_guarded`) -/
